@@ -1,7 +1,10 @@
 /-
-  The stage-2 generator proof: every statement of the fragment, generated in any generator state and
-  placed in any context whose labels are older, runs from its first line to just behind its last
-  line and leaves the memory the source prescribes; the generator's flag belief holds afterwards.
+  The generator proof for structured statements: every statement of the fragment, generated in any generator
+  state, inside any loop and placed in any context whose labels are older, runs from its first line
+    * to just behind its last line when the source statement ends normally — and the generator's flag belief
+      holds there;
+    * to the label a `break` / `continue` of the enclosing loop jumps to when the source statement ends that way;
+  and in each case leaves the memory, X and Y the source prescribes.
 -/
 import CV.Proofs.GenStructSem
 set_option linter.unusedSimpArgs false
@@ -14,11 +17,32 @@ open CV CV.GenFlat CV.GenReg
 def Result (L : Layout) (code : List GLine) (start : Nat) (s : Cpu) (stop : Nat) (m' : SrcSt) (fl : Option FRef) : Prop :=
   ∃ s', Steps L code start s stop s' ∧ srcOf s' = m' ∧ FlagsInv L fl s' ∧ s'.sp = s.sp
 
+/-- a run that ends at the position `t` of a label (nothing is claimed about the flags: a label forgets them) -/
+def Jumped (L : Layout) (code : List GLine) (start : Nat) (s : Cpu) (t : Nat) (m' : SrcSt) : Prop :=
+  ∃ s', Steps L code start s t s' ∧ srcOf s' = m' ∧ s'.sp = s.sp
+
+/-- the run of a statement with outcome `out`: normally to `stop`; by `continue` to `tc`; by `break` to `tb` -/
+def ResultO (L : Layout) (code : List GLine) (start : Nat) (s : Cpu) (stop tc tb : Nat) (out : Out) (fl : Option FRef) : Prop :=
+  match out.1 with
+  | .norm => Result L code start s stop out.2 fl
+  | .cont => Jumped L code start s tc out.2
+  | .brk => Jumped L code start s tb out.2
+
+/-- the labels of the enclosing loop are where the caller says: the break label always, the continue label when
+    the statement needs it (`generate_do_while` emits it only then) -/
+def LoopOK (lp : LoopCtx) (whole : List GLine) (tc tb : Nat) (needC : Bool) : Prop :=
+  match lp with
+  | none => True
+  | some (cl, bl) => (needC = true → findLbl whole cl = some tc) ∧ findLbl whole bl = some tb
+
 /-- correctness of `gen` for every statement whose source meaning is found within `fuel` -/
 def Correct (L : Layout) (fuel : Nat) : Prop :=
-  ∀ (st : SStmt) (m m' : SrcSt), sem L fuel m st = some m' → SInFragment st = true →
-    ∀ (g : GState) (pre post : List GLine) (s : Cpu), Old g pre → srcOf s = m → FlagsInv L g.flags s →
-      Result L (pre ++ (gen g st).1 ++ post) pre.length s (pre.length + (gen g st).1.length) m' (gen g st).2.flags
+  ∀ (st : SStmt) (m : SrcSt) (out : Out), sem L fuel m st = some out → SInFragment st = true →
+    ∀ (lp : LoopCtx) (g : GState) (pre post : List GLine) (s : Cpu) (tc tb : Nat),
+      Scoped lp.isSome st = true → Old g pre → srcOf s = m → FlagsInv L g.flags s →
+      LoopOK lp (pre ++ (gen lp g st).1 ++ post) tc tb (contHere st) →
+      ResultO L (pre ++ (gen lp g st).1 ++ post) pre.length s (pre.length + (gen lp g st).1.length) tc tb out
+        (gen lp g st).2.flags
 
 theorem Result.trans {L : Layout} {code : List GLine} {p1 p2 p3 : Nat} {s1 : Cpu} {m2 m3 : SrcSt} {f2 f3 : Option FRef}
     (h1 : Result L code p1 s1 p2 m2 f2)
@@ -28,6 +52,44 @@ theorem Result.trans {L : Layout} {code : List GLine} {p1 p2 p3 : Nat} {s1 : Cpu
   obtain ⟨s3, hs', hm', hf', hsp'⟩ := h2 s2 hm hf
   exact ⟨s3, hs.trans hs', hm', hf', by rw [hsp', hsp]⟩
 
+/-- a normal run followed by a run with any outcome -/
+theorem Result.thenO {L : Layout} {code : List GLine} {p1 p2 p3 tc tb : Nat} {s1 : Cpu} {m2 : SrcSt} {out : Out}
+    {f2 f3 : Option FRef} (h1 : Result L code p1 s1 p2 m2 f2)
+    (h2 : ∀ s2 : Cpu, srcOf s2 = m2 → FlagsInv L f2 s2 → ResultO L code p2 s2 p3 tc tb out f3) :
+    ResultO L code p1 s1 p3 tc tb out f3 := by
+  obtain ⟨s2, hs, hm, hf, hsp⟩ := h1
+  have := h2 s2 hm hf
+  obtain ⟨e, mo⟩ := out
+  cases e
+  · obtain ⟨s3, hs', hm', hf', hsp'⟩ := this
+    exact ⟨s3, hs.trans hs', hm', hf', by rw [hsp', hsp]⟩
+  · obtain ⟨s3, hs', hm', hsp'⟩ := this
+    exact ⟨s3, hs.trans hs', hm', by rw [hsp', hsp]⟩
+  · obtain ⟨s3, hs', hm', hsp'⟩ := this
+    exact ⟨s3, hs.trans hs', hm', by rw [hsp', hsp]⟩
+
+/-- steps, then a sub-statement with any outcome, then — when it ended normally — more steps that keep memory -/
+theorem ResultO.wrap {L : Layout} {code : List GLine} {p1 p2 q p3 tc tb : Nat} {s1 s2 : Cpu} {out : Out}
+    {f2 f3 : Option FRef} (hpre : Steps L code p1 s1 p2 s2) (hsp : s2.sp = s1.sp)
+    (hsub : ResultO L code p2 s2 q tc tb out f2)
+    (hpost : ∀ s3 : Cpu, Steps L code q s3 p3 s3) (hf3 : f3 = none) :
+    ResultO L code p1 s1 p3 tc tb out f3 := by
+  subst hf3
+  obtain ⟨e, mo⟩ := out
+  cases e
+  · obtain ⟨s3, hs', hm', hf', hsp'⟩ := hsub
+    exact ⟨s3, (hpre.trans hs').trans (hpost s3), hm', trivial, by rw [hsp', hsp]⟩
+  · obtain ⟨s3, hs', hm', hsp'⟩ := hsub
+    exact ⟨s3, hpre.trans hs', hm', by rw [hsp', hsp]⟩
+  · obtain ⟨s3, hs', hm', hsp'⟩ := hsub
+    exact ⟨s3, hpre.trans hs', hm', by rw [hsp', hsp]⟩
+
+theorem LoopOK.sub {lp : LoopCtx} {whole : List GLine} {tc tb : Nat} {n n' : Bool} (h : LoopOK lp whole tc tb n)
+    (hn : n' = true → n = true) : LoopOK lp whole tc tb n' := by
+  cases lp with
+  | none => trivial
+  | some p => obtain ⟨cl, bl⟩ := p; exact ⟨fun e => h.1 (hn e), h.2⟩
+
 /-- a label that is new for `g` is not defined in code that is old for `g` -/
 theorem not_mem_of_new {g : GState} {pre : List GLine} {l : Lbl} (ho : Old g pre) (hn : g.ctr l.kind.ctr < l.idx) :
     l ∉ labels pre := by
@@ -35,45 +97,91 @@ theorem not_mem_of_new {g : GState} {pre : List GLine} {l : Lbl} (ho : Old g pre
   have := ho l h
   omega
 
-theorem case_flat (L : Layout) (f : Nat) (fs : RStmt) (m m' : SrcSt) (h : sem L (f + 1) m (.flat fs) = some m')
-    (g : GState) (pre post : List GLine) (s : Cpu) (hm : srcOf s = m) (hinv : FlagsInv L g.flags s) :
-    Result L (pre ++ (gen g (.flat fs)).1 ++ post) pre.length s (pre.length + (gen g (.flat fs)).1.length) m'
-      (gen g (.flat fs)).2.flags := by
+theorem case_flat (L : Layout) (f : Nat) (fs : RStmt) (m : SrcSt) (out : Out) (h : sem L (f + 1) m (.flat fs) = some out)
+    (lp : LoopCtx) (g : GState) (pre post : List GLine) (s : Cpu) (tc tb : Nat) (hm : srcOf s = m) (hinv : FlagsInv L g.flags s) :
+    ResultO L (pre ++ (gen lp g (.flat fs)).1 ++ post) pre.length s (pre.length + (gen lp g (.flat fs)).1.length) tc tb out
+      (gen lp g (.flat fs)).2.flags := by
   simp only [sem, Option.some.injEq] at h
+  subst h
   obtain ⟨s', hs, hmem, hsp, hz⟩ := flat_steps L (zpL g.abs) fs g.flags pre post s hinv
   refine ⟨s', by simpa [gen, genFlat] using hs, ?_, by simpa [gen, genFlat] using hz, hsp⟩
-  rw [hmem, hm, h]
+  rw [hmem, hm]
 
-theorem case_seq (L : Layout) (f : Nat) (ih : Correct L f) (a b : SStmt) (m m' : SrcSt)
-    (h : sem L (f + 1) m (.seq a b) = some m') (hfr : SInFragment (.seq a b) = true)
-    (g : GState) (pre post : List GLine) (s : Cpu) (hold : Old g pre) (hm : srcOf s = m) (hinv : FlagsInv L g.flags s) :
-    Result L (pre ++ (gen g (.seq a b)).1 ++ post) pre.length s (pre.length + (gen g (.seq a b)).1.length) m'
-      (gen g (.seq a b)).2.flags := by
+theorem case_jump (L : Layout) (lp : LoopCtx) (g : GState) (pre post : List GLine) (s : Cpu) (t : Nat) (l : Lbl)
+    (hf : findLbl (pre ++ [GLine.jmp l] ++ post) l = some t) :
+    Jumped L (pre ++ [GLine.jmp l] ++ post) pre.length s t (srcOf s) := by
+  have := Steps.single (step_jmp L pre post l s t (by simpa using hf))
+  exact ⟨s, by simpa using this, rfl, rfl⟩
+
+/-- `if (c) break;` / `if (c) continue;`: the condition branches to the loop's label itself -/
+theorem case_condJump (L : Layout) (c : Cond) (hok : CondOK c = true) (g : GState) (pre post : List GLine) (s : Cpu)
+    (m : SrcSt) (l : Lbl) (t : Nat) (hold : Old g pre) (hm : srcOf s = m) (hinv : FlagsInv L g.flags s)
+    (hf : findLbl (pre ++ (genCond { g with cIf := g.cIf + 1 } c false l).1 ++ post) l = some t) :
+    (evalCond L m c = true → Jumped L (pre ++ (genCond { g with cIf := g.cIf + 1 } c false l).1 ++ post) pre.length s t m) ∧
+    (evalCond L m c = false → Result L (pre ++ (genCond { g with cIf := g.cIf + 1 } c false l).1 ++ post) pre.length s
+        (pre.length + (genCond { g with cIf := g.cIf + 1 } c false l).1.length) m (genCond { g with cIf := g.cIf + 1 } c false l).2.flags) := by
+  have hc := genCond_correct L c { g with cIf := g.cIf + 1 } false l hok pre post s t (hold.mono (mono_cIf g)) hinv hf
+  obtain ⟨s1, hs1, hm1, hsp1, hf1⟩ := hc
+  dsimp only at hs1 hf1
+  rw [hm] at hs1 hf1
+  refine ⟨?_, ?_⟩
+  · intro hev
+    have hb : (evalCond L m c != false) = true := by simp [hev]
+    simp only [hb, if_true] at hs1
+    exact ⟨s1, hs1, by rw [hm1, hm], hsp1⟩
+  · intro hev
+    have hb : (evalCond L m c != false) = false := by simp [hev]
+    simp only [hb, Bool.false_eq_true, if_false, Bool.false_and] at hs1 hf1
+    exact ⟨s1, hs1, by rw [hm1, hm], hf1, hsp1⟩
+
+theorem case_seq (L : Layout) (f : Nat) (ih : Correct L f) (a b : SStmt) (m : SrcSt) (out : Out)
+    (h : sem L (f + 1) m (.seq a b) = some out) (hfr : SInFragment (.seq a b) = true)
+    (lp : LoopCtx) (g : GState) (pre post : List GLine) (s : Cpu) (tc tb : Nat)
+    (hsc : Scoped lp.isSome (.seq a b) = true) (hold : Old g pre) (hm : srcOf s = m) (hinv : FlagsInv L g.flags s)
+    (hlp : LoopOK lp (pre ++ (gen lp g (.seq a b)).1 ++ post) tc tb (contHere (.seq a b))) :
+    ResultO L (pre ++ (gen lp g (.seq a b)).1 ++ post) pre.length s (pre.length + (gen lp g (.seq a b)).1.length) tc tb out
+      (gen lp g (.seq a b)).2.flags := by
   simp only [sem] at h
   simp only [SInFragment, Bool.and_eq_true] at hfr
+  simp only [Scoped, Bool.and_eq_true] at hsc
+  revert hlp
+  simp only [gen]
+  rcases hca : gen lp g a with ⟨ca, g1⟩
+  rcases hcb : gen lp g1 b with ⟨cb, g2⟩
+  dsimp only
+  intro hlp
+  have hfa : Fresh g (ca, g1) := hca ▸ gen_fresh a lp g
+  have hold1 : Old g1 (pre ++ ca) := (hold.mono hfa.1).append (Old.of_fresh hfa)
+  have e1 : pre ++ (ca ++ cb) ++ post = pre ++ ca ++ (cb ++ post) := by simp
+  have e2 : pre ++ (ca ++ cb) ++ post = (pre ++ ca) ++ cb ++ post := by simp
   cases h1 : sem L f m a with
   | none => simp [h1] at h
-  | some m1 =>
-    simp [h1] at h
-    simp only [gen]
-    rcases hca : gen g a with ⟨ca, g1⟩
-    rcases hcb : gen g1 b with ⟨cb, g2⟩
-    have ra := ih a m m1 h1 hfr.1 g pre (cb ++ post) s hold hm hinv
+  | some oa =>
+    have ra := ih a m oa h1 hfr.1 lp g pre (cb ++ post) s tc tb hsc.1 hold hm hinv
+      (by rw [hca]; dsimp only; rw [← e1]; exact hlp.sub (by simp [contHere]; intro e; exact Or.inl e))
     rw [hca] at ra
-    have hfa : Fresh g (ca, g1) := hca ▸ gen_fresh a g
-    have hold1 : Old g1 (pre ++ ca) := (hold.mono hfa.1).append (Old.of_fresh hfa)
-    have e1 : pre ++ (ca ++ cb) ++ post = pre ++ ca ++ (cb ++ post) := by simp
-    have e2 : pre ++ (ca ++ cb) ++ post = (pre ++ ca) ++ cb ++ post := by simp
-    dsimp only at ra ⊢
-    rw [e1]
-    refine ra.trans ?_
-    intro s2 hm2 hf2
-    have rb := ih b m1 m' h hfr.2 g1 (pre ++ ca) post s2 hold1 hm2 hf2
-    rw [hcb] at rb
-    dsimp only at rb
-    rw [← e1, e2]
-    simpa [Nat.add_assoc] using rb
-
+    dsimp only at ra
+    rw [← e1] at ra
+    obtain ⟨ea, m1⟩ := oa
+    cases ea with
+    | norm =>
+      simp only [h1] at h
+      refine Result.thenO ra ?_
+      intro s2 hm2 hf2
+      have rb := ih b m1 out h hfr.2 lp g1 (pre ++ ca) post s2 tc tb hsc.2 hold1 hm2 hf2
+        (by rw [hcb]; dsimp only; rw [← e2]; exact hlp.sub (by simp [contHere]; intro e; exact Or.inr e))
+      rw [hcb] at rb
+      dsimp only at rb
+      rw [← e2] at rb
+      simpa [Nat.add_assoc] using rb
+    | brk =>
+      simp only [h1, Option.some.injEq] at h
+      subst h
+      exact ra
+    | cont =>
+      simp only [h1, Option.some.injEq] at h
+      subst h
+      exact ra
 
 /-- a label allocated before `gx` is not among the labels of code generated from `gx` on -/
 theorem not_mem_of_fresh {gx : GState} {r : List GLine × GState} {l : Lbl} (hf : Fresh gx r)
@@ -84,19 +192,26 @@ theorem not_mem_of_fresh {gx : GState} {r : List GLine × GState} {l : Lbl} (hf 
 
 theorem fresh_ctr_le {g : GState} {r : List GLine × GState} (h : Fresh g r) (c : Ctr) : g.ctr c ≤ r.2.ctr c := h.1 c
 
-theorem case_ifThen (L : Layout) (f : Nat) (ih : Correct L f) (c : Cond) (t : SStmt) (m m' : SrcSt)
-    (h : sem L (f + 1) m (.ifThen c t) = some m') (hfr : SInFragment (.ifThen c t) = true)
-    (g : GState) (pre post : List GLine) (s : Cpu) (hold : Old g pre) (hm : srcOf s = m) (hinv : FlagsInv L g.flags s) :
-    Result L (pre ++ (gen g (.ifThen c t)).1 ++ post) pre.length s (pre.length + (gen g (.ifThen c t)).1.length) m'
-      (gen g (.ifThen c t)).2.flags := by
+
+
+theorem case_ifThen (L : Layout) (f : Nat) (ih : Correct L f) (c : Cond) (t : SStmt) (m : SrcSt) (out : Out)
+    (h : sem L (f + 1) m (.ifThen c t) = some out) (hfr : SInFragment (.ifThen c t) = true)
+    (lp : LoopCtx) (g : GState) (pre post : List GLine) (s : Cpu) (tc tb : Nat)
+    (hsc : Scoped lp.isSome (.ifThen c t) = true) (hold : Old g pre) (hm : srcOf s = m) (hinv : FlagsInv L g.flags s)
+    (hlp : LoopOK lp (pre ++ (gen lp g (.ifThen c t)).1 ++ post) tc tb (contHere (.ifThen c t))) :
+    ResultO L (pre ++ (gen lp g (.ifThen c t)).1 ++ post) pre.length s (pre.length + (gen lp g (.ifThen c t)).1.length) tc tb out
+      (gen lp g (.ifThen c t)).2.flags := by
   simp only [sem] at h
   simp only [SInFragment, Bool.and_eq_true] at hfr
-  simp only [gen]
+  simp only [Scoped] at hsc
+  revert hlp
+  simp only [gen, contHere]
   rcases hcc : genCond { g with cIf := g.cIf + 1 } c true ⟨.ifend, g.cIf + 1⟩ with ⟨cc, g1⟩
-  rcases hct : gen g1 t with ⟨ct, g2⟩
+  rcases hct : gen lp g1 t with ⟨ct, g2⟩
   dsimp only
+  intro hlp
   have hfc : Fresh { g with cIf := g.cIf + 1 } (cc, g1) := hcc ▸ genCond_fresh ..
-  have hft : Fresh g1 (ct, g2) := hct ▸ gen_fresh t g1
+  have hft : Fresh g1 (ct, g2) := hct ▸ gen_fresh t lp g1
   have hold0 : Old { g with cIf := g.cIf + 1 } pre := hold.mono (mono_cIf g)
   have hold1 : Old g1 (pre ++ cc) := (hold0.mono hfc.1).append (Old.of_fresh hfc)
   -- where the end label is
@@ -138,44 +253,49 @@ theorem case_ifThen (L : Layout) (f : Nat) (ih : Correct L f) (c : Cond) (t : SS
     simp only [hev, if_true] at h
     have hb : (evalCond L m c != true) = false := by simp [hev]
     simp only [hb, Bool.false_eq_true, if_false, Bool.false_and] at hs1 hf1
-    have rt := ih t m m' h hfr.2 g1 (pre ++ cc) ([GLine.lab ⟨.ifend, g.cIf + 1⟩] ++ post) s1 hold1 (by rw [hm1, hm]) hf1
-    rw [hct] at rt
-    dsimp only at rt
     have e2 : pre ++ cc ++ ct ++ ([GLine.lab ⟨.ifend, g.cIf + 1⟩] ++ post)
         = pre ++ (cc ++ ct ++ [GLine.lab ⟨.ifend, g.cIf + 1⟩]) ++ post := by simp
+    have rt := ih t m out h hfr.2 lp g1 (pre ++ cc) ([GLine.lab ⟨.ifend, g.cIf + 1⟩] ++ post) s1 tc tb hsc hold1 (by rw [hm1, hm]) hf1
+      (by rw [hct]; dsimp only; rw [e2]; exact hlp)
+    rw [hct] at rt
+    dsimp only at rt
     rw [e2] at rt
-    obtain ⟨s2, hs2, hm2, hf2, hsp2⟩ := rt
-    refine ⟨s2, ?_, hm2, trivial, by rw [hsp2, hsp1]⟩
-    have hs2' : Steps L (pre ++ (cc ++ ct ++ [GLine.lab ⟨.ifend, g.cIf + 1⟩]) ++ post) (pre.length + cc.length) s1
-        (pre.length + cc.length + ct.length) s2 := by simpa using hs2
-    exact (hs1.trans hs2').trans (hlab s2)
+    have rt' : ResultO L (pre ++ (cc ++ ct ++ [GLine.lab ⟨.ifend, g.cIf + 1⟩]) ++ post) (pre.length + cc.length) s1
+        (pre.length + cc.length + ct.length) tc tb out g2.flags := by simpa using rt
+    exact ResultO.wrap hs1 hsp1 rt' hlab rfl
   · -- the body is skipped
     have hev' : evalCond L m c = false := by simpa using hev
     simp only [hev', Bool.false_eq_true, if_false, Option.some.injEq] at h
+    subst h
     have hb : (evalCond L m c != true) = true := by simp [hev']
     simp only [hb, if_true] at hs1
-    refine ⟨s1, hs1.trans (hlab s1), by rw [hm1, hm, h], trivial, hsp1⟩
+    exact ⟨s1, hs1.trans (hlab s1), by rw [hm1, hm], trivial, hsp1⟩
 
 
-theorem case_ifElse (L : Layout) (f : Nat) (ih : Correct L f) (c : Cond) (t e : SStmt) (m m' : SrcSt)
-    (h : sem L (f + 1) m (.ifElse c t e) = some m') (hfr : SInFragment (.ifElse c t e) = true)
-    (g : GState) (pre post : List GLine) (s : Cpu) (hold : Old g pre) (hm : srcOf s = m) (hinv : FlagsInv L g.flags s) :
-    Result L (pre ++ (gen g (.ifElse c t e)).1 ++ post) pre.length s (pre.length + (gen g (.ifElse c t e)).1.length) m'
-      (gen g (.ifElse c t e)).2.flags := by
+theorem case_ifElse (L : Layout) (f : Nat) (ih : Correct L f) (c : Cond) (t e : SStmt) (m : SrcSt) (out : Out)
+    (h : sem L (f + 1) m (.ifElse c t e) = some out) (hfr : SInFragment (.ifElse c t e) = true)
+    (lp : LoopCtx) (g : GState) (pre post : List GLine) (s : Cpu) (tc tb : Nat)
+    (hsc : Scoped lp.isSome (.ifElse c t e) = true) (hold : Old g pre) (hm : srcOf s = m) (hinv : FlagsInv L g.flags s)
+    (hlp : LoopOK lp (pre ++ (gen lp g (.ifElse c t e)).1 ++ post) tc tb (contHere (.ifElse c t e))) :
+    ResultO L (pre ++ (gen lp g (.ifElse c t e)).1 ++ post) pre.length s (pre.length + (gen lp g (.ifElse c t e)).1.length) tc tb out
+      (gen lp g (.ifElse c t e)).2.flags := by
   simp only [sem] at h
   simp only [SInFragment, Bool.and_eq_true] at hfr
   obtain ⟨⟨hokc, hfrt⟩, hfre⟩ := hfr
-  simp only [gen]
+  simp only [Scoped, Bool.and_eq_true] at hsc
+  revert hlp
+  simp only [gen, contHere]
   rcases hcc : genCond { g with cIf := g.cIf + 1 } c true ⟨.else_, g.cIf + 1⟩ with ⟨cc, g1⟩
-  rcases hct : gen g1 t with ⟨ct, g2⟩
-  rcases hce : gen { g2 with flags := if c.singleExit then g1.flags else none } e with ⟨ce, g3⟩
+  rcases hct : gen lp g1 t with ⟨ct, g2⟩
+  rcases hce : gen lp { g2 with flags := if c.singleExit then g1.flags else none } e with ⟨ce, g3⟩
   dsimp only
   generalize hifend : (⟨.ifend, g.cIf + 1⟩ : Lbl) = ifend
   generalize hels : (⟨.else_, g.cIf + 1⟩ : Lbl) = els
+  intro hlp
   have hfc : Fresh { g with cIf := g.cIf + 1 } (cc, g1) := hcc ▸ genCond_fresh ..
-  have hft : Fresh g1 (ct, g2) := hct ▸ gen_fresh t g1
+  have hft : Fresh g1 (ct, g2) := hct ▸ gen_fresh t lp g1
   have hfe : Fresh g2 (ce, g3) := by
-    have := gen_fresh e { g2 with flags := if c.singleExit then g1.flags else none }
+    have := gen_fresh e lp { g2 with flags := if c.singleExit then g1.flags else none }
     rw [hce, fresh_flags_left] at this
     exact this
   have hold0 : Old { g with cIf := g.cIf + 1 } pre := hold.mono (mono_cIf g)
@@ -241,20 +361,21 @@ theorem case_ifElse (L : Layout) (f : Nat) (ih : Correct L f) (c : Cond) (t e : 
   · simp only [hev, if_true] at h
     have hb : (evalCond L m c != true) = false := by simp [hev]
     simp only [hb, Bool.false_eq_true, if_false, Bool.false_and] at hs1 hf1
-    have rt := ih t m m' h hfrt g1 (pre ++ cc) ([GLine.jmp ifend, .lab els] ++ ce ++ [.lab ifend] ++ post) s1 hold1
-      (by rw [hm1, hm]) hf1
+    have rt := ih t m out h hfrt lp g1 (pre ++ cc) ([GLine.jmp ifend, .lab els] ++ ce ++ [.lab ifend] ++ post) s1 tc tb hsc.1 hold1
+      (by rw [hm1, hm]) hf1 (by rw [hct]; dsimp only; rw [← w4]; exact hlp.sub (by simp; intro e; exact Or.inl e))
     rw [hct] at rt
     dsimp only at rt
     rw [← w4] at rt
-    obtain ⟨s2, hs2, hm2, hf2, hsp2⟩ := rt
-    have hs2' : Steps L whole (pre.length + cc.length) s1 (pre.length + cc.length + ct.length) s2 :=
-      hs2.cast (by len_arith) (by len_arith)
-    have hj : Steps L whole (pre.length + cc.length + ct.length) s2 (pre.length + cc.length + ct.length + 2 + ce.length) s2 := by
+    have rt' : ResultO L whole (pre.length + cc.length) s1 (pre.length + cc.length + ct.length) tc tb out g2.flags := by
+      have e1 : (pre ++ cc).length = pre.length + cc.length := by len_arith
+      rw [e1] at rt; exact rt
+    have hj : ∀ s2 : Cpu, Steps L whole (pre.length + cc.length + ct.length) s2 (pre.length + cc.length + ct.length + 2 + ce.length + 1) s2 := by
+      intro s2
       have := Steps.single (step_jmp L (pre ++ cc ++ ct) ([GLine.lab els] ++ ce ++ [.lab ifend] ++ post) ifend s2
         (pre.length + cc.length + ct.length + 2 + ce.length) (by rw [← w5]; exact hfind_ifend))
       rw [← w5] at this
-      exact this.cast (by len_arith) rfl
-    refine ⟨s2, ((hs1.trans hs2').trans hj).trans (hlab s2), hm2, trivial, by rw [hsp2, hsp1]⟩
+      exact (this.cast (by len_arith) rfl).trans (hlab s2)
+    exact ResultO.wrap hs1 hsp1 rt' hj rfl
   · have hev' : evalCond L m c = false := by simpa using hev
     simp only [hev', Bool.false_eq_true, if_false] at h
     have hb : (evalCond L m c != true) = true := by simp [hev']
@@ -274,46 +395,68 @@ theorem case_ifElse (L : Layout) (f : Nat) (ih : Correct L f) (c : Cond) (t e : 
       subst hl
       rw [← hels]
       simp [LKind.ctr, GState.ctr, Lbl.idx]; omega
-    have re := ih e m m' h hfre { g2 with flags := if c.singleExit then g1.flags else none } (pre ++ cc ++ ct ++ [GLine.jmp ifend, .lab els])
-      ([GLine.lab ifend] ++ post) s1 hold2 (by rw [hm1, hm]) hf1'
+    have re := ih e m out h hfre lp { g2 with flags := if c.singleExit then g1.flags else none } (pre ++ cc ++ ct ++ [GLine.jmp ifend, .lab els])
+      ([GLine.lab ifend] ++ post) s1 tc tb hsc.2 hold2 (by rw [hm1, hm]) hf1'
+      (by rw [hce]; dsimp only; rw [← w6]; exact hlp.sub (by simp; intro e; exact Or.inr e))
     rw [hce] at re
     dsimp only at re
     rw [← w6] at re
-    obtain ⟨s2, hs2, hm2, hf2, hsp2⟩ := re
-    have hs2' : Steps L whole (pre.length + cc.length + ct.length + 2) s1 (pre.length + cc.length + ct.length + 2 + ce.length) s2 :=
-      hs2.cast (by len_arith) (by len_arith)
-    refine ⟨s2, ((hs1.trans hl).trans hs2').trans (hlab s2), hm2, trivial, by rw [hsp2, hsp1]⟩
+    have re' : ResultO L whole (pre.length + cc.length + ct.length + 2) s1 (pre.length + cc.length + ct.length + 2 + ce.length) tc tb out g3.flags := by
+      have e1 : (pre ++ cc ++ ct ++ [GLine.jmp ifend, GLine.lab els]).length = pre.length + cc.length + ct.length + 2 := by len_arith
+      rw [e1] at re; exact re
+    exact ResultO.wrap (hs1.trans hl) hsp1 re' hlab rfl
 
 
-theorem gen_while_flags (g : GState) (x : Option FRef) (c : Cond) (b : SStmt) :
-    gen { g with flags := x } (.while c b) = gen g (.while c b) := rfl
 
-theorem gen_doWhile_flags (g : GState) (x : Option FRef) (c : Cond) (b : SStmt) :
-    gen { g with flags := x } (.doWhile b c) = gen g (.doWhile b c) := rfl
 
-theorem case_while (L : Layout) (f : Nat) (ih : Correct L f) (c : Cond) (b : SStmt) (m m' : SrcSt)
-    (h : sem L (f + 1) m (.while c b) = some m') (hfr : SInFragment (.while c b) = true)
-    (g : GState) (pre post : List GLine) (s : Cpu) (hold : Old g pre) (hm : srcOf s = m) (hinv : FlagsInv L g.flags s) :
-    Result L (pre ++ (gen g (.while c b)).1 ++ post) pre.length s (pre.length + (gen g (.while c b)).1.length) m'
-      (gen g (.while c b)).2.flags := by
+/-- steps, then a run with any outcome -/
+theorem ResultO.after {L : Layout} {code : List GLine} {p1 p2 p3 tc tb : Nat} {s1 s2 : Cpu} {out : Out} {f3 : Option FRef}
+    (hpre : Steps L code p1 s1 p2 s2) (hsp : s2.sp = s1.sp) (hsub : ResultO L code p2 s2 p3 tc tb out f3) :
+    ResultO L code p1 s1 p3 tc tb out f3 := by
+  obtain ⟨e, mo⟩ := out
+  cases e
+  · obtain ⟨s3, hs', hm', hf', hsp'⟩ := hsub
+    exact ⟨s3, hpre.trans hs', hm', hf', by rw [hsp', hsp]⟩
+  · obtain ⟨s3, hs', hm', hsp'⟩ := hsub
+    exact ⟨s3, hpre.trans hs', hm', by rw [hsp', hsp]⟩
+  · obtain ⟨s3, hs', hm', hsp'⟩ := hsub
+    exact ⟨s3, hpre.trans hs', hm', by rw [hsp', hsp]⟩
+
+theorem gen_while_flags (lp : LoopCtx) (g : GState) (x : Option FRef) (c : Cond) (b : SStmt) :
+    gen lp { g with flags := x } (.while c b) = gen lp g (.while c b) := rfl
+
+theorem gen_doWhile_flags (lp : LoopCtx) (g : GState) (x : Option FRef) (c : Cond) (b : SStmt) :
+    gen lp { g with flags := x } (.doWhile b c) = gen lp g (.doWhile b c) := rfl
+
+theorem case_while (L : Layout) (f : Nat) (ih : Correct L f) (c : Cond) (b : SStmt) (m : SrcSt) (out : Out)
+    (h : sem L (f + 1) m (.while c b) = some out) (hfr : SInFragment (.while c b) = true)
+    (lp : LoopCtx) (g : GState) (pre post : List GLine) (s : Cpu) (tc tb : Nat)
+    (hsc : Scoped lp.isSome (.while c b) = true) (hold : Old g pre) (hm : srcOf s = m) (hinv : FlagsInv L g.flags s)
+    (hlp : LoopOK lp (pre ++ (gen lp g (.while c b)).1 ++ post) tc tb (contHere (.while c b))) :
+    ResultO L (pre ++ (gen lp g (.while c b)).1 ++ post) pre.length s (pre.length + (gen lp g (.while c b)).1.length) tc tb out
+      (gen lp g (.while c b)).2.flags := by
   have hfr0 := hfr
+  have hsc0 := hsc
   simp only [sem] at h
   simp only [SInFragment, Bool.and_eq_true] at hfr
   obtain ⟨hokc, hfrb⟩ := hfr
+  simp only [Scoped] at hsc
   -- the recursive use is about the very same code
-  have hrec := fun (m1 : SrcSt) (hs : sem L f m1 (.while c b) = some m') (s2 : Cpu) (hm2 : srcOf s2 = m1) =>
-    ih (.while c b) m1 m' hs hfr0 { g with flags := none } pre post s2 ((old_flags g none pre).mpr hold) hm2 trivial
+  have hrec := fun (m1 : SrcSt) (o : Out) (hs : sem L f m1 (.while c b) = some o) (s2 : Cpu) (hm2 : srcOf s2 = m1) =>
+    ih (.while c b) m1 o hs hfr0 lp { g with flags := none } pre post s2 tc tb hsc0 ((old_flags g none pre).mpr hold) hm2 trivial
   simp only [gen_while_flags] at hrec
-  revert hrec
+  revert hrec hlp
   simp only [gen]
   rcases hcc : genCond { g with cWhile := g.cWhile + 1, flags := none } c true ⟨.whileend, g.cWhile + 1⟩ with ⟨cc, g1⟩
-  rcases hcb : gen g1 b with ⟨cb, g2⟩
+  rcases hcb : gen (some (⟨.while_, g.cWhile + 1⟩, ⟨.whileend, g.cWhile + 1⟩)) g1 b with ⟨cb, g2⟩
   dsimp only
   generalize hwl : (⟨.while_, g.cWhile + 1⟩ : Lbl) = wl
   generalize hwe : (⟨.whileend, g.cWhile + 1⟩ : Lbl) = we
-  intro hrec
+  intro hlp hrec
+  have hrec' := fun (m1 : SrcSt) (o : Out) (hs : sem L f m1 (.while c b) = some o) (s2 : Cpu) (hm2 : srcOf s2 = m1) =>
+    hrec m1 o hs s2 hm2 hlp
   have hfc : Fresh { g with cWhile := g.cWhile + 1, flags := none } (cc, g1) := hcc ▸ genCond_fresh ..
-  have hfb : Fresh g1 (cb, g2) := hcb ▸ gen_fresh b g1
+  have hfb : Fresh g1 (cb, g2) := hcb ▸ gen_fresh b _ g1
   have hk1 := fresh_ctr_le hfc .cWhile
   simp [GState.ctr] at hk1
   have hneq : we ≠ wl := by rw [← hwe, ← hwl]; simp
@@ -346,7 +489,7 @@ theorem case_while (L : Layout) (f : Nat) (ih : Correct L f) (c : Cond) (b : SSt
       = (pre ++ [GLine.lab wl] ++ cc ++ cb) ++ GLine.jmp wl :: ([GLine.lab we] ++ post) := by simp
   have hend : pre.length + ([GLine.lab wl] ++ cc ++ cb ++ [GLine.jmp wl, GLine.lab we]).length
       = pre.length + 1 + cc.length + cb.length + 2 := by len_arith
-  rw [hend] at hrec ⊢
+  rw [hend] at hrec' ⊢
   generalize hwhole : pre ++ ([GLine.lab wl] ++ cc ++ cb ++ [GLine.jmp wl, .lab we]) ++ post = whole at *
   have hfind_wl : findLbl whole wl = some pre.length := by
     rw [w0, findLbl_at _ _ _ hnot_wl]
@@ -370,29 +513,52 @@ theorem case_while (L : Layout) (f : Nat) (ih : Correct L f) (c : Cond) (b : SSt
   · simp only [hev, if_true] at h
     have hb : (evalCond L m c != true) = false := by simp [hev]
     simp only [hb, Bool.false_eq_true, if_false, Bool.false_and] at hs1 hf1
+    have hlpb : LoopOK (some (wl, we)) whole pre.length (pre.length + 1 + cc.length + cb.length + 1) (contHere b) :=
+      ⟨fun _ => hfind_wl, hfind_we⟩
+    have hlab_end : ∀ s2 : Cpu, Steps L whole (pre.length + 1 + cc.length + cb.length + 1) s2 (pre.length + 1 + cc.length + cb.length + 2) s2 := by
+      intro s2
+      have := Steps.single (step_lab L (pre ++ [GLine.lab wl] ++ cc ++ cb ++ [GLine.jmp wl]) post we s2)
+      rw [← w1] at this
+      exact this.cast (by len_arith) (by len_arith)
+    have hs1' : Steps L whole (pre.length + 1) s (pre.length + 1 + cc.length) s1 := hs1.cast (by len_arith) (by len_arith)
     cases hb1 : sem L f m b with
     | none => simp [hb1] at h
-    | some m1 =>
-      simp [hb1] at h
-      have rb := ih b m m1 hb1 hfrb g1 (pre ++ [GLine.lab wl] ++ cc) ([GLine.jmp wl, .lab we] ++ post) s1 hold1
-        (by rw [hm1, hm]) hf1
+    | some ob =>
+      have rb := ih b m ob hb1 hfrb (some (wl, we)) g1 (pre ++ [GLine.lab wl] ++ cc) ([GLine.jmp wl, .lab we] ++ post) s1
+        pre.length (pre.length + 1 + cc.length + cb.length + 1) hsc hold1 (by rw [hm1, hm]) hf1
+        (by rw [hwl, hwe] at hcb; rw [hcb]; dsimp only; rw [← w3]; exact hlpb)
+      rw [hwl, hwe] at hcb
       rw [hcb] at rb
       dsimp only at rb
       rw [← w3] at rb
-      obtain ⟨s2, hs2, hm2, hf2, hsp2⟩ := rb
-      have hj : Steps L whole (pre.length + 1 + cc.length + cb.length) s2 pre.length s2 := by
-        have := Steps.single (step_jmp L (pre ++ [GLine.lab wl] ++ cc ++ cb) ([GLine.lab we] ++ post) wl s2 pre.length
-          (by rw [← w4]; exact hfind_wl))
-        rw [← w4] at this
-        exact this.cast (by len_arith) rfl
-      obtain ⟨s3, hs3, hm3, hf3, hsp3⟩ := hrec m1 h s2 hm2
-      refine ⟨s3, ?_, hm3, trivial, by rw [hsp3, hsp2, hsp1]⟩
-      have hs1' : Steps L whole (pre.length + 1) s (pre.length + 1 + cc.length) s1 := hs1.cast (by len_arith) (by len_arith)
-      have hs2' : Steps L whole (pre.length + 1 + cc.length) s1 (pre.length + 1 + cc.length + cb.length) s2 :=
-        hs2.cast (by len_arith) (by len_arith)
-      exact (((h0.trans hs1').trans hs2').trans hj).trans hs3
+      obtain ⟨eb, m1⟩ := ob
+      cases eb with
+      | norm =>
+        simp only [hb1] at h
+        obtain ⟨s2, hs2, hm2, hf2, hsp2⟩ := rb
+        have hj : Steps L whole (pre.length + 1 + cc.length + cb.length) s2 pre.length s2 := by
+          have := Steps.single (step_jmp L (pre ++ [GLine.lab wl] ++ cc ++ cb) ([GLine.lab we] ++ post) wl s2 pre.length
+            (by rw [← w4]; exact hfind_wl))
+          rw [← w4] at this
+          exact this.cast (by len_arith) rfl
+        have hs2' : Steps L whole (pre.length + 1 + cc.length) s1 (pre.length + 1 + cc.length + cb.length) s2 :=
+          hs2.cast (by len_arith) (by len_arith)
+        exact ResultO.after ((((h0.trans hs1').trans hs2').trans hj)) (by rw [hsp2, hsp1]) (hrec' m1 out h s2 hm2)
+      | cont =>
+        simp only [hb1] at h
+        obtain ⟨s2, hs2, hm2, hsp2⟩ := rb
+        have hs2' : Steps L whole (pre.length + 1 + cc.length) s1 pre.length s2 := hs2.cast (by len_arith) rfl
+        exact ResultO.after ((h0.trans hs1').trans hs2') (by rw [hsp2, hsp1]) (hrec' m1 out h s2 hm2)
+      | brk =>
+        simp only [hb1, Option.some.injEq] at h
+        subst h
+        obtain ⟨s2, hs2, hm2, hsp2⟩ := rb
+        have hs2' : Steps L whole (pre.length + 1 + cc.length) s1 (pre.length + 1 + cc.length + cb.length + 1) s2 :=
+          hs2.cast (by len_arith) rfl
+        exact ⟨s2, ((h0.trans hs1').trans hs2').trans (hlab_end s2), hm2, trivial, by rw [hsp2, hsp1]⟩
   · have hev' : evalCond L m c = false := by simpa using hev
     simp only [hev', Bool.false_eq_true, if_false, Option.some.injEq] at h
+    subst h
     have hb : (evalCond L m c != true) = true := by simp [hev']
     simp only [hb, if_true] at hs1
     have hl : Steps L whole (pre.length + 1 + cc.length + cb.length + 1) s1 (pre.length + 1 + cc.length + cb.length + 2) s1 := by
@@ -400,31 +566,135 @@ theorem case_while (L : Layout) (f : Nat) (ih : Correct L f) (c : Cond) (b : SSt
       rw [← w1] at this
       exact this.cast (by len_arith) (by len_arith)
     have hs1' : Steps L whole (pre.length + 1) s (pre.length + 1 + cc.length + cb.length + 1) s1 := hs1.cast (by len_arith) rfl
-    exact ⟨s1, (h0.trans hs1').trans hl, by rw [hm1, hm, h], trivial, hsp1⟩
+    exact ⟨s1, (h0.trans hs1').trans hl, by rw [hm1, hm], trivial, hsp1⟩
 
 
-theorem case_doWhile (L : Layout) (f : Nat) (ih : Correct L f) (c : Cond) (b : SStmt) (m m' : SrcSt)
-    (h : sem L (f + 1) m (.doWhile b c) = some m') (hfr : SInFragment (.doWhile b c) = true)
-    (g : GState) (pre post : List GLine) (s : Cpu) (hold : Old g pre) (hm : srcOf s = m) (hinv : FlagsInv L g.flags s) :
-    Result L (pre ++ (gen g (.doWhile b c)).1 ++ post) pre.length s (pre.length + (gen g (.doWhile b c)).1.length) m'
-      (gen g (.doWhile b c)).2.flags := by
+
+
+/-! ### which outcomes are possible -/
+
+/-- a loop ends normally; a statement that ends by `continue` contains one that belongs to it -/
+theorem outcome_facts (L : Layout) : ∀ (f : Nat),
+    (∀ (m : SrcSt) (st : SStmt) (m' : SrcSt), sem L f m st = some (.cont, m') → contHere st = true) ∧
+    (∀ (c : Cond) (u : RStmt) (b : SStmt) (m : SrcSt) (o : Out), semFor L c u b f m = some o → o.1 = .norm) := by
+  intro f
+  induction f with
+  | zero => exact ⟨fun m st m' h => by simp [sem] at h, fun c u b m o h => by simp [semFor] at h⟩
+  | succ f ih =>
+    obtain ⟨ih1, ih2⟩ := ih
+    refine ⟨?_, ?_⟩
+    · intro m st m' h
+      cases st with
+      | flat s => simp [sem] at h
+      | skip => simp [sem] at h
+      | brk => simp [sem] at h
+      | cont => rfl
+      | ifCont c => rfl
+      | ifBrk c =>
+        simp only [sem, Option.some.injEq, Prod.mk.injEq] at h
+        split at h <;> simp at h
+      | seq a b =>
+        simp only [sem] at h
+        cases ha : sem L f m a with
+        | none => simp [ha] at h
+        | some oa =>
+          obtain ⟨ea, m1⟩ := oa
+          cases ea with
+          | norm => simp only [ha] at h; simp [contHere, ih1 m1 b m' h]
+          | brk => simp [ha] at h
+          | cont => simp only [ha, Option.some.injEq, Prod.mk.injEq, true_and] at h; subst h; simp [contHere, ih1 m a m1 ha]
+      | ifThen c t =>
+        simp only [sem] at h
+        split at h
+        · simpa [contHere] using ih1 m t m' h
+        · simp at h
+      | ifElse c t e =>
+        simp only [sem] at h
+        split at h
+        · simp [contHere, ih1 m t m' h]
+        · simp [contHere, ih1 m e m' h]
+      | «while» c b =>
+        simp only [sem] at h
+        split at h
+        · cases hb : sem L f m b with
+          | none => simp [hb] at h
+          | some ob =>
+            obtain ⟨eb, m1⟩ := ob
+            cases eb with
+            | brk => simp [hb] at h
+            | norm => simp only [hb] at h; exact ih1 m1 _ m' h
+            | cont => simp only [hb] at h; exact ih1 m1 _ m' h
+        · simp at h
+      | doWhile b c =>
+        simp only [sem] at h
+        cases hb : sem L f m b with
+        | none => simp [hb] at h
+        | some ob =>
+          obtain ⟨eb, m1⟩ := ob
+          cases eb with
+          | brk => simp [hb] at h
+          | norm =>
+            simp only [hb] at h
+            split at h
+            · exact ih1 m1 _ m' h
+            · simp at h
+          | cont =>
+            simp only [hb] at h
+            split at h
+            · exact ih1 m1 _ m' h
+            · simp at h
+      | «for» i c u b =>
+        simp only [sem] at h
+        have := ih2 c u b _ _ h
+        simp at this
+    · intro c u b m o h
+      simp only [semFor] at h
+      split at h
+      · cases hb : sem L f m b with
+        | none => simp [hb] at h
+        | some ob =>
+          obtain ⟨eb, m1⟩ := ob
+          cases eb with
+          | brk => simp only [hb, Option.some.injEq] at h; subst h; rfl
+          | norm => simp only [hb] at h; exact ih2 c u b _ o h
+          | cont => simp only [hb] at h; exact ih2 c u b _ o h
+      · simp only [Option.some.injEq] at h; subst h; rfl
+
+theorem sem_cont_contHere (L : Layout) (f : Nat) (m : SrcSt) (st : SStmt) (m' : SrcSt)
+    (h : sem L f m st = some (.cont, m')) : contHere st = true := (outcome_facts L f).1 m st m' h
+
+
+theorem case_doWhile (L : Layout) (f : Nat) (ih : Correct L f) (c : Cond) (b : SStmt) (m : SrcSt) (out : Out)
+    (h : sem L (f + 1) m (.doWhile b c) = some out) (hfr : SInFragment (.doWhile b c) = true)
+    (lp : LoopCtx) (g : GState) (pre post : List GLine) (s : Cpu) (tc tb : Nat)
+    (hsc : Scoped lp.isSome (.doWhile b c) = true) (hold : Old g pre) (hm : srcOf s = m) (hinv : FlagsInv L g.flags s)
+    (hlp : LoopOK lp (pre ++ (gen lp g (.doWhile b c)).1 ++ post) tc tb (contHere (.doWhile b c))) :
+    ResultO L (pre ++ (gen lp g (.doWhile b c)).1 ++ post) pre.length s (pre.length + (gen lp g (.doWhile b c)).1.length) tc tb out
+      (gen lp g (.doWhile b c)).2.flags := by
   have hfr0 := hfr
+  have hsc0 := hsc
   simp only [sem] at h
   simp only [SInFragment, Bool.and_eq_true] at hfr
   obtain ⟨hokc, hfrb⟩ := hfr
-  have hrec := fun (m1 : SrcSt) (hs : sem L f m1 (.doWhile b c) = some m') (s2 : Cpu) (hm2 : srcOf s2 = m1) =>
-    ih (.doWhile b c) m1 m' hs hfr0 { g with flags := none } pre post s2 ((old_flags g none pre).mpr hold) hm2 trivial
+  simp only [Scoped] at hsc
+  have hrec := fun (m1 : SrcSt) (o : Out) (hs : sem L f m1 (.doWhile b c) = some o) (s2 : Cpu) (hm2 : srcOf s2 = m1) =>
+    ih (.doWhile b c) m1 o hs hfr0 lp { g with flags := none } pre post s2 tc tb hsc0 ((old_flags g none pre).mpr hold) hm2 trivial
   simp only [gen_doWhile_flags] at hrec
-  revert hrec
+  revert hrec hlp
   simp only [gen]
-  rcases hcb : gen { g with cWhile := g.cWhile + 1, flags := none } b with ⟨cb, g1⟩
-  rcases hcc : genCond g1 c false ⟨.dowhile, g.cWhile + 1⟩ with ⟨cc, g2⟩
+  rcases hcb : gen (some (⟨.dowhilecondition, g.cWhile + 1⟩, ⟨.dowhileend, g.cWhile + 1⟩)) { g with cWhile := g.cWhile + 1, flags := none } b with ⟨cb, g1⟩
+  rcases hcc : genCond (if contHere b then { g1 with flags := none } else g1) c false ⟨.dowhile, g.cWhile + 1⟩ with ⟨cc, g2⟩
   dsimp only
   generalize hdl : (⟨.dowhile, g.cWhile + 1⟩ : Lbl) = dl
+  generalize hdc : (⟨.dowhilecondition, g.cWhile + 1⟩ : Lbl) = dc
   generalize hde : (⟨.dowhileend, g.cWhile + 1⟩ : Lbl) = de
-  intro hrec
-  have hfb : Fresh { g with cWhile := g.cWhile + 1, flags := none } (cb, g1) := hcb ▸ gen_fresh b _
-  have hfc : Fresh g1 (cc, g2) := hcc ▸ genCond_fresh ..
+  generalize hmid : (if contHere b = true then [GLine.lab dc] else []) = mid
+  intro hlp hrec
+  have hrec' := fun (m1 : SrcSt) (o : Out) (hs : sem L f m1 (.doWhile b c) = some o) (s2 : Cpu) (hm2 : srcOf s2 = m1) =>
+    hrec m1 o hs s2 hm2 hlp
+  have hfb : Fresh { g with cWhile := g.cWhile + 1, flags := none } (cb, g1) := hcb ▸ gen_fresh b _ _
+  have hk1 := fresh_ctr_le hfb .cWhile
+  simp [GState.ctr] at hk1
   have hold0 : Old { g with cWhile := g.cWhile + 1, flags := none } (pre ++ [GLine.lab dl]) := by
     refine (hold.mono (mono_cWhile g none)).append ?_
     intro l hl
@@ -433,66 +703,152 @@ theorem case_doWhile (L : Layout) (f : Nat) (ih : Correct L f) (c : Cond) (b : S
     rw [← hdl]
     simp [LKind.ctr, GState.ctr, Lbl.idx]
   have hold1 : Old g1 (pre ++ [GLine.lab dl] ++ cb) := (hold0.mono hfb.1).append (Old.of_fresh hfb)
+  have hmidlab : ∀ l ∈ labels mid, l = dc := by
+    intro l hl
+    rw [← hmid] at hl
+    split at hl <;> simp at hl
+    exact hl
+  have hold2 : Old (if contHere b then { g1 with flags := none } else g1) (pre ++ [GLine.lab dl] ++ cb ++ mid) := by
+    have : Old g1 (pre ++ [GLine.lab dl] ++ cb ++ mid) := by
+      refine hold1.append ?_
+      intro l hl
+      rw [hmidlab l hl, ← hdc]
+      simp [LKind.ctr, GState.ctr, Lbl.idx]; omega
+    split
+    · rw [old_flags]; exact this
+    · exact this
   have hnot_dl : dl ∉ labels pre := by
     rw [← hdl]; exact not_mem_of_new hold (by simp [LKind.ctr, GState.ctr, Lbl.idx])
-  have w0 : pre ++ ([GLine.lab dl] ++ cb ++ cc ++ [GLine.lab de]) ++ post
-      = pre ++ GLine.lab dl :: (cb ++ cc ++ [GLine.lab de] ++ post) := by simp
-  have w1 : pre ++ ([GLine.lab dl] ++ cb ++ cc ++ [GLine.lab de]) ++ post
-      = (pre ++ [GLine.lab dl] ++ cb ++ cc) ++ GLine.lab de :: post := by simp
-  have w2 : pre ++ ([GLine.lab dl] ++ cb ++ cc ++ [GLine.lab de]) ++ post
-      = (pre ++ [GLine.lab dl]) ++ cb ++ (cc ++ [GLine.lab de] ++ post) := by simp
-  have w3 : pre ++ ([GLine.lab dl] ++ cb ++ cc ++ [GLine.lab de]) ++ post
-      = (pre ++ [GLine.lab dl] ++ cb) ++ cc ++ ([GLine.lab de] ++ post) := by simp
-  have hend : pre.length + ([GLine.lab dl] ++ cb ++ cc ++ [GLine.lab de]).length
-      = pre.length + 1 + cb.length + cc.length + 1 := by len_arith
-  rw [hend] at hrec ⊢
-  generalize hwhole : pre ++ ([GLine.lab dl] ++ cb ++ cc ++ [GLine.lab de]) ++ post = whole at *
+  have hnot_dc : dc ∉ labels (pre ++ [GLine.lab dl] ++ cb) := by
+    simp only [labels_append, List.mem_append, not_or, labels_lab, labels_nil, List.mem_singleton]
+    refine ⟨⟨?_, ?_⟩, ?_⟩
+    · rw [← hdc]; exact not_mem_of_new hold (by simp [LKind.ctr, GState.ctr, Lbl.idx])
+    · rw [← hdc, ← hdl]; simp
+    · rw [← hdc]; exact not_mem_of_fresh hfb (by simp [LKind.ctr, GState.ctr, Lbl.idx])
+  have hfc : Fresh g1 (cc, g2) := by
+    have : Fresh (if contHere b then { g1 with flags := none } else g1) (cc, g2) := hcc ▸ genCond_fresh ..
+    by_cases hcn : contHere b = true
+    · simp only [hcn, if_true] at this; rwa [fresh_flags_left] at this
+    · simpa [hcn] using this
+  have hnot_de : de ∉ labels (pre ++ [GLine.lab dl] ++ cb ++ mid ++ cc) := by
+    simp only [labels_append, List.mem_append, not_or, labels_lab, labels_nil, List.mem_singleton]
+    refine ⟨⟨⟨⟨?_, ?_⟩, ?_⟩, ?_⟩, ?_⟩
+    · rw [← hde]; exact not_mem_of_new hold (by simp [LKind.ctr, GState.ctr, Lbl.idx])
+    · rw [← hde, ← hdl]; simp
+    · rw [← hde]; exact not_mem_of_fresh hfb (by simp [LKind.ctr, GState.ctr, Lbl.idx])
+    · intro hin; have := hmidlab de hin; rw [← hde, ← hdc] at this; simp at this
+    · rw [← hde]; exact not_mem_of_fresh hfc (by simp [LKind.ctr, GState.ctr, Lbl.idx]; omega)
+  have w0 : pre ++ ([GLine.lab dl] ++ cb ++ mid ++ cc ++ [GLine.lab de]) ++ post
+      = pre ++ GLine.lab dl :: (cb ++ mid ++ cc ++ [GLine.lab de] ++ post) := by simp
+  have w1 : pre ++ ([GLine.lab dl] ++ cb ++ mid ++ cc ++ [GLine.lab de]) ++ post
+      = (pre ++ [GLine.lab dl] ++ cb ++ mid ++ cc) ++ GLine.lab de :: post := by simp
+  have w2 : pre ++ ([GLine.lab dl] ++ cb ++ mid ++ cc ++ [GLine.lab de]) ++ post
+      = (pre ++ [GLine.lab dl]) ++ cb ++ (mid ++ cc ++ [GLine.lab de] ++ post) := by simp
+  have w3 : pre ++ ([GLine.lab dl] ++ cb ++ mid ++ cc ++ [GLine.lab de]) ++ post
+      = (pre ++ [GLine.lab dl] ++ cb ++ mid) ++ cc ++ ([GLine.lab de] ++ post) := by simp
+  have hend : pre.length + ([GLine.lab dl] ++ cb ++ mid ++ cc ++ [GLine.lab de]).length
+      = pre.length + 1 + cb.length + mid.length + cc.length + 1 := by len_arith
+  rw [hend] at hrec' ⊢
+  generalize hwhole : pre ++ ([GLine.lab dl] ++ cb ++ mid ++ cc ++ [GLine.lab de]) ++ post = whole at *
   have hfind_dl : findLbl whole dl = some pre.length := by
     rw [w0, findLbl_at _ _ _ hnot_dl]
+  have hfind_de : findLbl whole de = some (pre.length + 1 + cb.length + mid.length + cc.length) := by
+    rw [w1, findLbl_at _ _ _ hnot_de]; congr 1; len_arith
+  have hfind_dc : contHere b = true → findLbl whole dc = some (pre.length + 1 + cb.length) := by
+    intro hcn
+    have hm' : mid = [GLine.lab dc] := by rw [← hmid]; simp [hcn]
+    have w5 : whole = (pre ++ [GLine.lab dl] ++ cb) ++ GLine.lab dc :: (cc ++ [GLine.lab de] ++ post) := by
+      rw [← hwhole, hm']; simp
+    rw [w5, findLbl_at _ _ _ hnot_dc]; congr 1; len_arith
   have h0 : Steps L whole pre.length s (pre.length + 1) s := by
-    have := Steps.single (step_lab L pre (cb ++ cc ++ [GLine.lab de] ++ post) dl s)
+    have := Steps.single (step_lab L pre (cb ++ mid ++ cc ++ [GLine.lab de] ++ post) dl s)
     rw [← w0] at this; exact this
-  cases hb1 : sem L f m b with
-  | none => simp [hb1] at h
-  | some m1 =>
-    simp [hb1] at h
-    -- the body
-    have rb := ih b m m1 hb1 hfrb { g with cWhile := g.cWhile + 1, flags := none } (pre ++ [GLine.lab dl])
-      (cc ++ [GLine.lab de] ++ post) s hold0 hm trivial
-    rw [hcb] at rb
-    dsimp only at rb
-    rw [← w2] at rb
-    obtain ⟨s1, hs1, hm1, hf1, hsp1⟩ := rb
-    have hs1' : Steps L whole (pre.length + 1) s (pre.length + 1 + cb.length) s1 := hs1.cast (by len_arith) (by len_arith)
-    -- the condition
-    have hc := genCond_correct L c g1 false dl hokc
+  -- over the condition label (when there is one)
+  have hmidsteps : ∀ s2 : Cpu, Steps L whole (pre.length + 1 + cb.length) s2 (pre.length + 1 + cb.length + mid.length) s2 := by
+    intro s2
+    by_cases hcn : contHere b = true
+    · have hm' : mid = [GLine.lab dc] := by rw [← hmid]; simp [hcn]
+      have w5 : whole = (pre ++ [GLine.lab dl] ++ cb) ++ GLine.lab dc :: (cc ++ [GLine.lab de] ++ post) := by
+        rw [← hwhole, hm']; simp
+      have := Steps.single (step_lab L (pre ++ [GLine.lab dl] ++ cb) (cc ++ [GLine.lab de] ++ post) dc s2)
+      rw [← w5] at this
+      rw [hm']
+      exact this.cast (by len_arith) (by len_arith)
+    · have hm' : mid = [] := by rw [← hmid]; simp [hcn]
+      rw [hm']; simpa using Steps.refl _ _
+  have hlab_end : ∀ s2 : Cpu, Steps L whole (pre.length + 1 + cb.length + mid.length + cc.length) s2
+      (pre.length + 1 + cb.length + mid.length + cc.length + 1) s2 := by
+    intro s2
+    have := Steps.single (step_lab L (pre ++ [GLine.lab dl] ++ cb ++ mid ++ cc) post de s2)
+    rw [← w1] at this
+    exact this.cast (by len_arith) (by len_arith)
+  have hlpb : LoopOK (some (dc, de)) whole (pre.length + 1 + cb.length) (pre.length + 1 + cb.length + mid.length + cc.length) (contHere b) :=
+    ⟨hfind_dc, hfind_de⟩
+  -- from the start of the condition (at `mid`), in a state whose memory is m1
+  have hcond : ∀ (m1 : SrcSt) (s1 : Cpu), srcOf s1 = m1 → s1.sp = s.sp →
+      FlagsInv L (if contHere b then none else g1.flags) s1 →
+      (if evalCond L m1 c then sem L f m1 (.doWhile b c) else some (.norm, m1)) = some out →
+      ResultO L whole (pre.length + 1 + cb.length) s1 (pre.length + 1 + cb.length + mid.length + cc.length + 1) tc tb out none := by
+    intro m1 s1 hm1 hsp1 hf1 hres
+    have hc := genCond_correct L c (if contHere b then { g1 with flags := none } else g1) false dl hokc
     rw [hdl] at hcc
     rw [hcc] at hc
-    have hc' := hc (pre ++ [GLine.lab dl] ++ cb) ([GLine.lab de] ++ post) s1 pre.length hold1 hf1
-      (by rw [← w3]; exact hfind_dl)
+    have hc' := hc (pre ++ [GLine.lab dl] ++ cb ++ mid) ([GLine.lab de] ++ post) s1 pre.length hold2
+      (by split <;> simp_all) (by rw [← w3]; exact hfind_dl)
     obtain ⟨s2, hs2, hm2, hsp2, hf2⟩ := hc'
     dsimp only at hs2 hf2
     rw [← w3, hm1] at hs2
     by_cases hev : evalCond L m1 c = true
-    · simp only [hev, if_true] at h
+    · simp only [hev, if_true] at hres
       have hb : (evalCond L m1 c != false) = true := by simp [hev]
       simp only [hb, if_true] at hs2
-      obtain ⟨s3, hs3, hm3, hf3, hsp3⟩ := hrec m1 h s2 (by rw [hm2, hm1])
-      refine ⟨s3, ?_, hm3, trivial, by rw [hsp3, hsp2, hsp1]⟩
-      have hs2' : Steps L whole (pre.length + 1 + cb.length) s1 pre.length s2 := hs2.cast (by len_arith) rfl
-      exact ((h0.trans hs1').trans hs2').trans hs3
+      have hs2' : Steps L whole (pre.length + 1 + cb.length + mid.length) s1 pre.length s2 := hs2.cast (by len_arith) rfl
+      exact ResultO.after ((hmidsteps s1).trans hs2') hsp2 (by
+        have := hrec' m1 out hres s2 (by rw [hm2, hm1])
+        obtain ⟨e, mo⟩ := out
+        cases e
+        · obtain ⟨s3, h3, hm3, hf3, hsp3⟩ := this; exact ⟨s3, h3, hm3, trivial, hsp3⟩
+        · exact this
+        · exact this)
     · have hev' : evalCond L m1 c = false := by simpa using hev
-      simp only [hev', Bool.false_eq_true, if_false, Option.some.injEq] at h
+      simp only [hev', Bool.false_eq_true, if_false, Option.some.injEq] at hres
+      subst hres
       have hb : (evalCond L m1 c != false) = false := by simp [hev']
       simp only [hb, Bool.false_eq_true, if_false] at hs2
-      have hl : Steps L whole (pre.length + 1 + cb.length + cc.length) s2 (pre.length + 1 + cb.length + cc.length + 1) s2 := by
-        have := Steps.single (step_lab L (pre ++ [GLine.lab dl] ++ cb ++ cc) post de s2)
-        rw [← w1] at this
-        exact this.cast (by len_arith) (by len_arith)
-      have hs2' : Steps L whole (pre.length + 1 + cb.length) s1 (pre.length + 1 + cb.length + cc.length) s2 :=
+      have hs2' : Steps L whole (pre.length + 1 + cb.length + mid.length) s1 (pre.length + 1 + cb.length + mid.length + cc.length) s2 :=
         hs2.cast (by len_arith) (by len_arith)
-      exact ⟨s2, ((h0.trans hs1').trans hs2').trans hl, by rw [hm2, hm1, h], trivial,
-        by rw [hsp2, hsp1]⟩
+      exact ⟨s2, ((hmidsteps s1).trans hs2').trans (hlab_end s2), by rw [hm2, hm1], trivial, hsp2⟩
+  cases hb1 : sem L f m b with
+  | none => simp [hb1] at h
+  | some ob =>
+    have rb := ih b m ob hb1 hfrb (some (dc, de)) { g with cWhile := g.cWhile + 1, flags := none } (pre ++ [GLine.lab dl])
+      (mid ++ cc ++ [GLine.lab de] ++ post) s (pre.length + 1 + cb.length) (pre.length + 1 + cb.length + mid.length + cc.length)
+      hsc hold0 hm trivial (by rw [hdc, hde] at hcb; rw [hcb]; dsimp only; rw [← w2]; exact hlpb)
+    rw [hdc, hde] at hcb
+    rw [hcb] at rb
+    dsimp only at rb
+    rw [← w2] at rb
+    obtain ⟨eb, m1⟩ := ob
+    cases eb with
+    | norm =>
+      simp only [hb1] at h
+      obtain ⟨s1, hs1, hm1, hf1, hsp1⟩ := rb
+      have hs1' : Steps L whole (pre.length + 1) s (pre.length + 1 + cb.length) s1 := hs1.cast (by len_arith) (by len_arith)
+      have := hcond m1 s1 hm1 hsp1 (by split <;> simp_all) h
+      exact ResultO.after (h0.trans hs1') hsp1 this
+    | cont =>
+      simp only [hb1] at h
+      have hcn := sem_cont_contHere L f m b m1 hb1
+      obtain ⟨s1, hs1, hm1, hsp1⟩ := rb
+      have hs1' : Steps L whole (pre.length + 1) s (pre.length + 1 + cb.length) s1 := hs1.cast (by len_arith) rfl
+      have := hcond m1 s1 hm1 hsp1 (by simp [hcn]) h
+      exact ResultO.after (h0.trans hs1') hsp1 this
+    | brk =>
+      simp only [hb1, Option.some.injEq] at h
+      subst h
+      obtain ⟨s1, hs1, hm1, hsp1⟩ := rb
+      have hs1' : Steps L whole (pre.length + 1) s (pre.length + 1 + cb.length + mid.length + cc.length) s1 := hs1.cast (by len_arith) rfl
+      exact ⟨s1, (h0.trans hs1').trans (hlab_end s1), hm1, trivial, hsp1⟩
 
 
 theorem old_nolabels {g : GState} {p q : List GLine} (hp : Old g p) (hq : labels q = []) : Old g (p ++ q) := by
@@ -500,17 +856,24 @@ theorem old_nolabels {g : GState} {p q : List GLine} (hp : Old g p) (hq : labels
   simp [hq] at hl
   exact hp l hl
 
-theorem case_for (L : Layout) (f : Nat) (ihs : ∀ j, j ≤ f → Correct L j) (i u : RStmt) (c : Cond) (b : SStmt) (m m' : SrcSt)
-    (h : sem L (f + 1) m (.for i c u b) = some m') (hfr : SInFragment (.for i c u b) = true)
-    (g : GState) (pre post : List GLine) (s : Cpu) (hold : Old g pre) (hm : srcOf s = m) (hinv : FlagsInv L g.flags s) :
-    Result L (pre ++ (gen g (.for i c u b)).1 ++ post) pre.length s (pre.length + (gen g (.for i c u b)).1.length) m'
-      (gen g (.for i c u b)).2.flags := by
+theorem case_for (L : Layout) (f : Nat) (ihs : ∀ j, j ≤ f → Correct L j) (i u : RStmt) (c : Cond) (b : SStmt) (m : SrcSt) (out : Out)
+    (h : sem L (f + 1) m (.for i c u b) = some out) (hfr : SInFragment (.for i c u b) = true)
+    (lp : LoopCtx) (g : GState) (pre post : List GLine) (s : Cpu) (tc tb : Nat)
+    (hsc : Scoped lp.isSome (.for i c u b) = true) (hold : Old g pre) (hm : srcOf s = m) (hinv : FlagsInv L g.flags s) :
+    ResultO L (pre ++ (gen lp g (.for i c u b)).1 ++ post) pre.length s (pre.length + (gen lp g (.for i c u b)).1.length) tc tb out
+      (gen lp g (.for i c u b)).2.flags := by
   simp only [sem] at h
   simp only [SInFragment, Bool.and_eq_true] at hfr
   obtain ⟨⟨⟨_, hokc⟩, _⟩, hfrb⟩ := hfr
+  simp only [Scoped] at hsc
+  have hnorm : out.1 = .norm := (outcome_facts L f).2 c u b _ out h
+  obtain ⟨eo, m'⟩ := out
+  simp only at hnorm
+  subst hnorm
+  show Result L _ _ _ _ m' _
   simp only [gen, genFlat]
   rcases hc1 : genCond { g with cFor := g.cFor + 1, flags := flagsAfter (zpL g.abs) g.flags i } c true ⟨.forend, g.cFor + 1⟩ with ⟨c1, g2⟩
-  rcases hcb : gen { g2 with flags := none } b with ⟨cb, g3⟩
+  rcases hcb : gen (some (⟨.forupdate, g.cFor + 1⟩, ⟨.forend, g.cFor + 1⟩)) { g2 with flags := none } b with ⟨cb, g3⟩
   rcases hc2 : genCond { g3 with flags := flagsAfter (zpL g3.abs) none u } c false ⟨.for_, g.cFor + 1⟩ with ⟨c2, g5⟩
   dsimp only
   generalize hfl : (⟨.for_, g.cFor + 1⟩ : Lbl) = fl
@@ -522,7 +885,7 @@ theorem case_for (L : Layout) (f : Nat) (ihs : ∀ j, j ≤ f → Correct L j) (
   have hlcu : labels cu = [] := by rw [← hcu]; exact labels_flatLines _ u
   have hf1 : Fresh { g with cFor := g.cFor + 1, flags := flagsAfter (zpL g.abs) g.flags i } (c1, g2) := hc1 ▸ genCond_fresh ..
   have hfb : Fresh g2 (cb, g3) := by
-    have := gen_fresh b { g2 with flags := none }
+    have := gen_fresh b (some (⟨.forupdate, g.cFor + 1⟩, ⟨.forend, g.cFor + 1⟩)) { g2 with flags := none }
     rw [hcb, fresh_flags_left] at this
     exact this
   have hf2 : Fresh g3 (c2, g5) := by
@@ -595,85 +958,112 @@ theorem case_for (L : Layout) (f : Nat) (ihs : ∀ j, j ≤ f → Correct L j) (
     have := Steps.single (step_lab L (pre ++ ci ++ c1 ++ [GLine.lab fl] ++ cb ++ [GLine.lab fu] ++ cu ++ c2) post fe s2)
     rw [← w7] at this
     exact this.cast (by len_arith) (by len_arith)
-  -- the loop, from the loop label, by induction on the fuel of the source loop
-  have hloop : ∀ k, k ≤ f → ∀ (m1 : SrcSt) (s1 : Cpu), srcOf s1 = m1 → evalCond L m1 c = true →
-      sem L k m1 (.while c (.seq b (.flat u))) = some m' →
+  have hnot_fu : fu ∉ labels (pre ++ ci ++ c1 ++ [GLine.lab fl] ++ cb) := by
+    simp only [labels_append, List.mem_append, not_or, hlci, List.not_mem_nil, not_false_eq_true, and_true,
+      labels_lab, labels_nil, List.mem_singleton]
+    refine ⟨⟨⟨?_, ?_⟩, ?_⟩, ?_⟩
+    · rw [← hfu]; exact not_mem_of_new hold (by simp [LKind.ctr, GState.ctr, Lbl.idx])
+    · rw [← hfu]; exact not_mem_of_fresh hf1 (by simp [LKind.ctr, GState.ctr, Lbl.idx])
+    · rw [← hfu, ← hfl]; simp
+    · rw [← hfu]; exact not_mem_of_fresh hfb (by simp [LKind.ctr, GState.ctr, Lbl.idx]; omega)
+  have hfind_fu : findLbl whole fu = some (pre.length + ci.length + c1.length + 1 + cb.length) := by
+    rw [w4, findLbl_at _ _ _ hnot_fu]; congr 1; len_arith
+  have hlpb : LoopOK (some (fu, fe)) whole (pre.length + ci.length + c1.length + 1 + cb.length)
+      (pre.length + ci.length + c1.length + 1 + cb.length + 1 + cu.length + c2.length) (contHere b) :=
+    ⟨fun _ => hfind_fu, hfind_fe⟩
+  -- the loop, from the loop label with the condition known to hold, by induction on the fuel of the source loop
+  have hloop : ∀ k, k ≤ f → ∀ (m1 : SrcSt) (s1 : Cpu) (o : Out), srcOf s1 = m1 → evalCond L m1 c = true →
+      semFor L c u b k m1 = some o →
       Result L whole (pre.length + ci.length + c1.length) s1
-        (pre.length + ci.length + c1.length + 1 + cb.length + 1 + cu.length + c2.length + 1) m' none := by
+        (pre.length + ci.length + c1.length + 1 + cb.length + 1 + cu.length + c2.length + 1) o.2 none := by
     intro k
     induction k with
-    | zero => intro _ m1 s1 _ _ hs; simp [sem] at hs
+    | zero => intro _ m1 s1 o _ _ hs; simp [semFor] at hs
     | succ k ihk =>
-      intro hk m1 s1 hm1 hev hs
-      simp only [sem, hev, if_true] at hs
-      cases hbody : sem L k m1 (.seq b (.flat u)) with
-      | none => simp [hbody] at hs
-      | some m2 =>
-        simp [hbody] at hs
-        -- split the body: b then u
-        cases k with
-        | zero => simp [sem] at hbody
-        | succ k1 =>
-          simp only [sem] at hbody
-          cases hb1 : sem L k1 m1 b with
-          | none => simp [hb1] at hbody
-          | some mb =>
-            simp [hb1] at hbody
-            cases k1 with
-            | zero => simp [sem] at hbody
-            | succ k2 =>
-              simp only [sem, Option.some.injEq] at hbody
-              -- loop label
-              have h0 : Steps L whole (pre.length + ci.length + c1.length) s1 (pre.length + ci.length + c1.length + 1) s1 := by
-                have := Steps.single (step_lab L (pre ++ ci ++ c1) (cb ++ [GLine.lab fu] ++ cu ++ c2 ++ [GLine.lab fe] ++ post) fl s1)
-                rw [← w2] at this
-                exact this.cast (by len_arith) (by len_arith)
-              -- body
-              have rb := ihs (k2 + 1) (by omega) b m1 mb hb1 hfrb { g2 with flags := none } (pre ++ ci ++ c1 ++ [GLine.lab fl])
-                ([GLine.lab fu] ++ cu ++ c2 ++ [GLine.lab fe] ++ post) s1 hold_b hm1 trivial
-              rw [hcb] at rb
-              dsimp only at rb
-              rw [← w3] at rb
-              obtain ⟨s2, hs2, hm2, hf2', hsp2⟩ := rb
-              have hs2' : Steps L whole (pre.length + ci.length + c1.length + 1) s1 (pre.length + ci.length + c1.length + 1 + cb.length) s2 :=
-                hs2.cast (by len_arith) (by len_arith)
-              -- update label
-              have h3 : Steps L whole (pre.length + ci.length + c1.length + 1 + cb.length) s2
-                  (pre.length + ci.length + c1.length + 1 + cb.length + 1) s2 := by
-                have := Steps.single (step_lab L (pre ++ ci ++ c1 ++ [GLine.lab fl] ++ cb) (cu ++ c2 ++ [GLine.lab fe] ++ post) fu s2)
-                rw [← w4] at this
-                exact this.cast (by len_arith) (by len_arith)
-              -- update statement
-              obtain ⟨s3, hs3, hm3, hsp3, hz3⟩ := flat_steps L (zpL g3.abs) u none (pre ++ ci ++ c1 ++ [GLine.lab fl] ++ cb ++ [GLine.lab fu]) (c2 ++ [GLine.lab fe] ++ post) s2 trivial
-              rw [hcu, ← w5] at hs3
-              have hs3' : Steps L whole (pre.length + ci.length + c1.length + 1 + cb.length + 1) s2
-                  (pre.length + ci.length + c1.length + 1 + cb.length + 1 + cu.length) s3 :=
-                hs3.cast (by len_arith) (by len_arith)
-              have hmem3 : srcOf s3 = m2 := by rw [hm3, hm2, hbody]
-              -- second condition
-              have hc := genCond_correct L c { g3 with flags := flagsAfter (zpL g3.abs) none u } false fl hokc
-              rw [hfl] at hc2
-              rw [hc2] at hc
-              have hc' := hc (pre ++ ci ++ c1 ++ [GLine.lab fl] ++ cb ++ [GLine.lab fu] ++ cu) ([GLine.lab fe] ++ post) s3
-                (pre.length + ci.length + c1.length) hold_c hz3 (by rw [← w6]; exact hfind_fl)
-              obtain ⟨s4, hs4, hm4, hsp4, hf4⟩ := hc'
-              dsimp only at hs4
-              rw [← w6, hmem3] at hs4
-              by_cases hev2 : evalCond L m2 c = true
-              · have hb : (evalCond L m2 c != false) = true := by simp [hev2]
-                simp only [hb, if_true] at hs4
-                have hs4' : Steps L whole (pre.length + ci.length + c1.length + 1 + cb.length + 1 + cu.length) s3
-                    (pre.length + ci.length + c1.length) s4 := hs4.cast (by len_arith) rfl
-                obtain ⟨s5, hs5, hm5, _, hsp5⟩ := ihk (by omega) m2 s4 (by rw [hm4, hmem3]) hev2 hs
-                exact ⟨s5, ((((h0.trans hs2').trans h3).trans hs3').trans hs4').trans hs5, hm5, trivial, by rw [hsp5, hsp4, hsp3, hsp2]⟩
-              · have hev2' : evalCond L m2 c = false := by simpa using hev2
-                have hb : (evalCond L m2 c != false) = false := by simp [hev2']
-                simp only [hb, Bool.false_eq_true, if_false] at hs4
-                have hs4' : Steps L whole (pre.length + ci.length + c1.length + 1 + cb.length + 1 + cu.length) s3
-                    (pre.length + ci.length + c1.length + 1 + cb.length + 1 + cu.length + c2.length) s4 :=
-                  hs4.cast (by len_arith) (by len_arith)
-                simp only [sem, hev2', Bool.false_eq_true, if_false, Option.some.injEq] at hs
-                exact ⟨s4, ((((h0.trans hs2').trans h3).trans hs3').trans hs4').trans (hlast s4), by rw [hm4, hmem3, hs], trivial, by rw [hsp4, hsp3, hsp2]⟩
+      intro hk m1 s1 o hm1 hev hs
+      simp only [semFor, hev, if_true] at hs
+      -- loop label
+      have h0 : Steps L whole (pre.length + ci.length + c1.length) s1 (pre.length + ci.length + c1.length + 1) s1 := by
+        have := Steps.single (step_lab L (pre ++ ci ++ c1) (cb ++ [GLine.lab fu] ++ cu ++ c2 ++ [GLine.lab fe] ++ post) fl s1)
+        rw [← w2] at this
+        exact this.cast (by len_arith) (by len_arith)
+      -- from the update label on, with the memory the body left
+      have hupd : ∀ (m2 : SrcSt) (s2 : Cpu), srcOf s2 = m2 → semFor L c u b k (rspec L m2 u) = some o →
+          Result L whole (pre.length + ci.length + c1.length + 1 + cb.length) s2
+            (pre.length + ci.length + c1.length + 1 + cb.length + 1 + cu.length + c2.length + 1) o.2 none := by
+        intro m2 s2 hm2 hs'
+        have h3 : Steps L whole (pre.length + ci.length + c1.length + 1 + cb.length) s2
+            (pre.length + ci.length + c1.length + 1 + cb.length + 1) s2 := by
+          have := Steps.single (step_lab L (pre ++ ci ++ c1 ++ [GLine.lab fl] ++ cb) (cu ++ c2 ++ [GLine.lab fe] ++ post) fu s2)
+          rw [← w4] at this
+          exact this.cast (by len_arith) (by len_arith)
+        obtain ⟨s3, hs3, hm3, hsp3, hz3⟩ := flat_steps L (zpL g3.abs) u none (pre ++ ci ++ c1 ++ [GLine.lab fl] ++ cb ++ [GLine.lab fu]) (c2 ++ [GLine.lab fe] ++ post) s2 trivial
+        rw [hcu, ← w5] at hs3
+        have hs3' : Steps L whole (pre.length + ci.length + c1.length + 1 + cb.length + 1) s2
+            (pre.length + ci.length + c1.length + 1 + cb.length + 1 + cu.length) s3 :=
+          hs3.cast (by len_arith) (by len_arith)
+        have hmem3 : srcOf s3 = rspec L m2 u := by rw [hm3, hm2]
+        have hc := genCond_correct L c { g3 with flags := flagsAfter (zpL g3.abs) none u } false fl hokc
+        rw [hfl] at hc2
+        rw [hc2] at hc
+        have hc' := hc (pre ++ ci ++ c1 ++ [GLine.lab fl] ++ cb ++ [GLine.lab fu] ++ cu) ([GLine.lab fe] ++ post) s3
+          (pre.length + ci.length + c1.length) hold_c hz3 (by rw [← w6]; exact hfind_fl)
+        obtain ⟨s4, hs4, hm4, hsp4, hf4⟩ := hc'
+        dsimp only at hs4
+        rw [← w6, hmem3] at hs4
+        by_cases hev2 : evalCond L (rspec L m2 u) c = true
+        · have hb : (evalCond L (rspec L m2 u) c != false) = true := by simp [hev2]
+          simp only [hb, if_true] at hs4
+          have hs4' : Steps L whole (pre.length + ci.length + c1.length + 1 + cb.length + 1 + cu.length) s3
+              (pre.length + ci.length + c1.length) s4 := hs4.cast (by len_arith) rfl
+          obtain ⟨s5, hs5, hm5, _, hsp5⟩ := ihk (by omega) (rspec L m2 u) s4 o (by rw [hm4, hmem3]) hev2 hs'
+          exact ⟨s5, ((h3.trans hs3').trans hs4').trans hs5, hm5, trivial, by rw [hsp5, hsp4, hsp3]⟩
+        · have hev2' : evalCond L (rspec L m2 u) c = false := by simpa using hev2
+          have hb : (evalCond L (rspec L m2 u) c != false) = false := by simp [hev2']
+          simp only [hb, Bool.false_eq_true, if_false] at hs4
+          have hs4' : Steps L whole (pre.length + ci.length + c1.length + 1 + cb.length + 1 + cu.length) s3
+              (pre.length + ci.length + c1.length + 1 + cb.length + 1 + cu.length + c2.length) s4 :=
+            hs4.cast (by len_arith) (by len_arith)
+          cases k with
+          | zero => simp [semFor] at hs'
+          | succ k1 =>
+            simp only [semFor, hev2', Bool.false_eq_true, if_false, Option.some.injEq] at hs'
+            subst hs'
+            exact ⟨s4, ((h3.trans hs3').trans hs4').trans (hlast s4), by rw [hm4, hmem3], trivial, by rw [hsp4, hsp3]⟩
+      cases hb1 : sem L k m1 b with
+      | none => simp [hb1] at hs
+      | some ob =>
+        have rb := ihs k (by omega) b m1 ob hb1 hfrb (some (fu, fe)) { g2 with flags := none } (pre ++ ci ++ c1 ++ [GLine.lab fl])
+          ([GLine.lab fu] ++ cu ++ c2 ++ [GLine.lab fe] ++ post) s1
+          (pre.length + ci.length + c1.length + 1 + cb.length) (pre.length + ci.length + c1.length + 1 + cb.length + 1 + cu.length + c2.length)
+          hsc hold_b hm1 trivial (by rw [hfu, hfe] at hcb; rw [hcb]; dsimp only; rw [← w3]; exact hlpb)
+        rw [hfu, hfe] at hcb
+        rw [hcb] at rb
+        dsimp only at rb
+        rw [← w3] at rb
+        obtain ⟨eb, m2⟩ := ob
+        cases eb with
+        | norm =>
+          simp only [hb1] at hs
+          obtain ⟨s2, hs2, hm2, hf2', hsp2⟩ := rb
+          have hs2' : Steps L whole (pre.length + ci.length + c1.length + 1) s1 (pre.length + ci.length + c1.length + 1 + cb.length) s2 :=
+            hs2.cast (by len_arith) (by len_arith)
+          obtain ⟨s5, hs5, hm5, _, hsp5⟩ := hupd m2 s2 hm2 hs
+          exact ⟨s5, (h0.trans hs2').trans hs5, hm5, trivial, by rw [hsp5, hsp2]⟩
+        | cont =>
+          simp only [hb1] at hs
+          obtain ⟨s2, hs2, hm2, hsp2⟩ := rb
+          have hs2' : Steps L whole (pre.length + ci.length + c1.length + 1) s1 (pre.length + ci.length + c1.length + 1 + cb.length) s2 :=
+            hs2.cast (by len_arith) rfl
+          obtain ⟨s5, hs5, hm5, _, hsp5⟩ := hupd m2 s2 hm2 hs
+          exact ⟨s5, (h0.trans hs2').trans hs5, hm5, trivial, by rw [hsp5, hsp2]⟩
+        | brk =>
+          simp only [hb1, Option.some.injEq] at hs
+          subst hs
+          obtain ⟨s2, hs2, hm2, hsp2⟩ := rb
+          have hs2' : Steps L whole (pre.length + ci.length + c1.length + 1) s1
+              (pre.length + ci.length + c1.length + 1 + cb.length + 1 + cu.length + c2.length) s2 := hs2.cast (by len_arith) rfl
+          exact ⟨s2, (h0.trans hs2').trans (hlast s2), hm2, trivial, hsp2⟩
   -- the initialisation
   obtain ⟨sa, hsa, hma, hspa, hza⟩ := flat_steps L (zpL g.abs) i g.flags pre
     (c1 ++ [GLine.lab fl] ++ cb ++ [GLine.lab fu] ++ cu ++ c2 ++ [GLine.lab fe] ++ post) s hinv
@@ -690,22 +1080,23 @@ theorem case_for (L : Layout) (f : Nat) (ihs : ∀ j, j ≤ f → Correct L j) (
   have hmema : srcOf sa = rspec L m i := by rw [hma, hm]
   rw [hmema] at hsb
   cases f with
-  | zero => simp [sem] at h
+  | zero => simp [semFor] at h
   | succ f1 =>
     by_cases hev : evalCond L (rspec L m i) c = true
     · have hb : (evalCond L (rspec L m i) c != true) = false := by simp [hev]
       simp only [hb, Bool.false_eq_true, if_false] at hsb
       have hsb' : Steps L whole (pre.length + ci.length) sa (pre.length + ci.length + c1.length) sb :=
         hsb.cast (by len_arith) (by len_arith)
-      obtain ⟨sc, hsc, hmc, _, hspc⟩ := hloop (f1 + 1) (Nat.le_refl _) (rspec L m i) sb (by rw [hmb, hmema]) hev h
-      exact ⟨sc, (hsa.trans hsb').trans hsc, hmc, trivial, by rw [hspc, hspb, hspa]⟩
+      obtain ⟨sc, hsc', hmc, _, hspc⟩ := hloop (f1 + 1) (Nat.le_refl _) (rspec L m i) sb (.norm, m') (by rw [hmb, hmema]) hev h
+      exact ⟨sc, (hsa.trans hsb').trans hsc', hmc, trivial, by rw [hspc, hspb, hspa]⟩
     · have hev' : evalCond L (rspec L m i) c = false := by simpa using hev
       have hb : (evalCond L (rspec L m i) c != true) = true := by simp [hev']
       simp only [hb, if_true] at hsb
       have hsb' : Steps L whole (pre.length + ci.length) sa
           (pre.length + ci.length + c1.length + 1 + cb.length + 1 + cu.length + c2.length) sb := hsb.cast (by len_arith) rfl
-      simp only [sem, hev', Bool.false_eq_true, if_false, Option.some.injEq] at h
+      simp only [semFor, hev', Bool.false_eq_true, if_false, Option.some.injEq, Prod.mk.injEq, true_and] at h
       exact ⟨sb, (hsa.trans hsb').trans (hlast sb), by rw [hmb, hmema, h], trivial, by rw [hspb, hspa]⟩
+
 
 
 /-- every statement of the fragment, whatever fuel its source meaning needs -/
@@ -713,23 +1104,143 @@ theorem correct_all (L : Layout) : ∀ fuel, Correct L fuel := by
   intro fuel
   induction fuel using Nat.strongRecOn with
   | _ fuel ih =>
-    intro st m m' h hfr g pre post s hold hm hinv
+    intro st m out h hfr lp g pre post s tc tb hsc hold hm hinv hlp
     cases fuel with
     | zero => simp [sem] at h
     | succ f =>
       have ihf : Correct L f := ih f (by omega)
       cases st with
-      | flat fs => exact case_flat L f fs m m' h g pre post s hm hinv
+      | flat fs => exact case_flat L f fs m out h lp g pre post s tc tb hm hinv
       | skip =>
         simp only [sem, Option.some.injEq] at h
-        refine ⟨s, ?_, by rw [hm, h], by simpa [gen] using hinv, rfl⟩
+        subst h
+        refine ⟨s, ?_, hm, by simpa [gen] using hinv, rfl⟩
         simpa [gen] using Steps.refl (L := L) (code := pre ++ post) pre.length s
-      | seq a b => exact case_seq L f ihf a b m m' h hfr g pre post s hold hm hinv
-      | ifThen c t => exact case_ifThen L f ihf c t m m' h hfr g pre post s hold hm hinv
-      | ifElse c t e => exact case_ifElse L f ihf c t e m m' h hfr g pre post s hold hm hinv
-      | «while» c b => exact case_while L f ihf c b m m' h hfr g pre post s hold hm hinv
-      | doWhile b c => exact case_doWhile L f ihf c b m m' h hfr g pre post s hold hm hinv
+      | brk =>
+        simp only [sem, Option.some.injEq] at h
+        subst h
+        cases lp with
+        | none => simp [Scoped] at hsc
+        | some p =>
+          obtain ⟨cl, bl⟩ := p
+          have := case_jump L (some (cl, bl)) g pre post s tb bl (by simpa [gen] using hlp.2)
+          rw [hm] at this
+          simpa [gen, ResultO] using this
+      | cont =>
+        simp only [sem, Option.some.injEq] at h
+        subst h
+        cases lp with
+        | none => simp [Scoped] at hsc
+        | some p =>
+          obtain ⟨cl, bl⟩ := p
+          have := case_jump L (some (cl, bl)) g pre post s tc cl (by simpa [gen] using hlp.1 rfl)
+          rw [hm] at this
+          simpa [gen, ResultO] using this
+      | ifBrk c =>
+        simp only [sem, Option.some.injEq] at h
+        subst h
+        simp only [SInFragment] at hfr
+        cases lp with
+        | none => simp [Scoped] at hsc
+        | some p =>
+          obtain ⟨cl, bl⟩ := p
+          have := case_condJump L c hfr g pre post s m bl tb hold hm hinv (by simpa [gen] using hlp.2)
+          by_cases hev : evalCond L m c = true
+          · simpa [gen, ResultO, hev] using this.1 hev
+          · have hev' : evalCond L m c = false := by simpa using hev
+            simpa [gen, ResultO, hev'] using this.2 hev'
+      | ifCont c =>
+        simp only [sem, Option.some.injEq] at h
+        subst h
+        simp only [SInFragment] at hfr
+        cases lp with
+        | none => simp [Scoped] at hsc
+        | some p =>
+          obtain ⟨cl, bl⟩ := p
+          have := case_condJump L c hfr g pre post s m cl tc hold hm hinv (by simpa [gen] using hlp.1 rfl)
+          by_cases hev : evalCond L m c = true
+          · simpa [gen, ResultO, hev] using this.1 hev
+          · have hev' : evalCond L m c = false := by simpa using hev
+            simpa [gen, ResultO, hev'] using this.2 hev'
+      | seq a b => exact case_seq L f ihf a b m out h hfr lp g pre post s tc tb hsc hold hm hinv hlp
+      | ifThen c t => exact case_ifThen L f ihf c t m out h hfr lp g pre post s tc tb hsc hold hm hinv hlp
+      | ifElse c t e => exact case_ifElse L f ihf c t e m out h hfr lp g pre post s tc tb hsc hold hm hinv hlp
+      | «while» c b => exact case_while L f ihf c b m out h hfr lp g pre post s tc tb hsc hold hm hinv hlp
+      | doWhile b c => exact case_doWhile L f ihf c b m out h hfr lp g pre post s tc tb hsc hold hm hinv hlp
       | «for» i c u b =>
-        exact case_for L f (fun j hj => ih j (by omega)) i u c b m m' h hfr g pre post s hold hm hinv
+        exact case_for L f (fun j hj => ih j (by omega)) i u c b m out h hfr lp g pre post s tc tb hsc hold hm hinv
+
+/-- a statement outside every loop ends normally -/
+theorem scoped_norm (L : Layout) : ∀ (f : Nat) (m : SrcSt) (st : SStmt) (o : Out),
+    sem L f m st = some o → Scoped false st = true → o.1 = .norm := by
+  intro f
+  induction f with
+  | zero => intro m st o h; simp [sem] at h
+  | succ f ih =>
+    intro m st o h hsc
+    cases st with
+    | flat s => simp only [sem, Option.some.injEq] at h; subst h; rfl
+    | skip => simp only [sem, Option.some.injEq] at h; subst h; rfl
+    | brk => simp [Scoped] at hsc
+    | cont => simp [Scoped] at hsc
+    | ifBrk c => simp [Scoped] at hsc
+    | ifCont c => simp [Scoped] at hsc
+    | seq a b =>
+      simp only [Scoped, Bool.and_eq_true] at hsc
+      simp only [sem] at h
+      cases ha : sem L f m a with
+      | none => simp [ha] at h
+      | some oa =>
+        have hn := ih m a oa ha hsc.1
+        obtain ⟨ea, m1⟩ := oa
+        simp only at hn
+        subst hn
+        simp only [ha] at h
+        exact ih m1 b o h hsc.2
+    | ifThen c t =>
+      simp only [Scoped] at hsc
+      simp only [sem] at h
+      split at h
+      · exact ih m t o h hsc
+      · simp only [Option.some.injEq] at h; subst h; rfl
+    | ifElse c t e =>
+      simp only [Scoped, Bool.and_eq_true] at hsc
+      simp only [sem] at h
+      split at h
+      · exact ih m t o h hsc.1
+      · exact ih m e o h hsc.2
+    | «while» c b =>
+      simp only [sem] at h
+      split at h
+      · cases hb : sem L f m b with
+        | none => simp [hb] at h
+        | some ob =>
+          obtain ⟨eb, m1⟩ := ob
+          cases eb with
+          | brk => simp only [hb, Option.some.injEq] at h; subst h; rfl
+          | norm => simp only [hb] at h; exact ih m1 _ o h hsc
+          | cont => simp only [hb] at h; exact ih m1 _ o h hsc
+      · simp only [Option.some.injEq] at h; subst h; rfl
+    | doWhile b c =>
+      simp only [sem] at h
+      cases hb : sem L f m b with
+      | none => simp [hb] at h
+      | some ob =>
+        obtain ⟨eb, m1⟩ := ob
+        cases eb with
+        | brk => simp only [hb, Option.some.injEq] at h; subst h; rfl
+        | norm =>
+          simp only [hb] at h
+          split at h
+          · exact ih m1 _ o h hsc
+          · simp only [Option.some.injEq] at h; subst h; rfl
+        | cont =>
+          simp only [hb] at h
+          split at h
+          · exact ih m1 _ o h hsc
+          · simp only [Option.some.injEq] at h; subst h; rfl
+    | «for» i c u b =>
+      simp only [sem] at h
+      exact (outcome_facts L f).2 c u b _ o h
 
 end CV.GenStruct
